@@ -302,12 +302,61 @@ func genAttrs(r *vgen.Rand, n int) []kvt {
 	return out
 }
 
+// dupKeys: k keys, each m times (13-60 entries in all), randomly interleaved; the caller gives every
+// occurrence its own value, so the surviving (last) occurrence of a key is distinguishable from the others.
+func dupKeys(r *vgen.Rand, pool []string) []string {
+	k := r.Range(2, 8)
+	m := r.Range(2, 7)
+	for k*m < 13 {
+		m++
+	}
+	for k*m > 60 {
+		m--
+	}
+	start := r.Intn(len(pool))
+	var keys []string
+	for i := 0; i < k; i++ {
+		key := pool[(start+i)%len(pool)]
+		if i >= len(pool) {
+			key = fmt.Sprintf("%s.%d", key, i)
+		}
+		for j := 0; j < m; j++ {
+			keys = append(keys, key)
+		}
+	}
+	for i := len(keys) - 1; i > 0; i-- {
+		j := r.Intn(i + 1)
+		keys[i], keys[j] = keys[j], keys[i]
+	}
+	return keys
+}
+
+// genDupAttrs: a long attribute list with heavily duplicated keys; occurrence i carries the value "v<i>"
+// (now and then another type or an invalid value, so that the validity filter meets the last-wins rule).
+func genDupAttrs(r *vgen.Rand) []kvt {
+	keys := dupKeys(r, keyPool)
+	out := make([]kvt, len(keys))
+	for i, k := range keys {
+		v := val{t: 4, s: fmt.Sprintf("v%d", i)}
+		switch r.Intn(12) {
+		case 0:
+			v = val{t: 2, n: uint64(i)}
+		case 1:
+			v = val{}
+		}
+		out[i] = kvt{k: k, v: v}
+	}
+	return out
+}
+
 func genRes(r *vgen.Rand) rdesc {
 	switch r.Intn(12) {
 	case 0:
 		return rdesc{kind: 0}
 	case 1:
 		return rdesc{kind: 1}
+	case 2, 3:
+		return rdesc{kind: 2, schema: vgen.Pick(r, schemaPool), input: genDupAttrs(r)}
 	}
 	n := vgen.Pick(r, []int{0, 1, 1, 2, 3, 3, 4, 5, 6, 8, 10, 11, 12})
 	return rdesc{kind: 2, schema: vgen.Pick(r, schemaPool), input: genAttrs(r, n)}
@@ -575,10 +624,22 @@ func genValueBytes(r *vgen.Rand) string {
 func genEnvCase(r *vgen.Rand) envCase {
 	var c envCase
 	n := vgen.Pick(r, []int{0, 1, 1, 2, 3, 4, 6})
+	var longKeys []string
+	if r.Chance(1, 5) { // 13-60 pairs, few keys repeated many times: the LAST occurrence must win
+		longKeys = dupKeys(r, envKeys)
+		n = len(longKeys)
+	}
 	var items []string
 	for i := 0; i < n; i++ {
 		k := vgen.Pick(r, envKeys)
 		v := genValueBytes(r)
+		if longKeys != nil {
+			k = longKeys[i]
+			v = fmt.Sprintf("v%d", i)
+			if r.Chance(1, 10) {
+				v = genValueBytes(r)
+			}
+		}
 		c.pairs = append(c.pairs, [2]string{k, v})
 		items = append(items, pad(r)+k+pad(r)+"="+pad(r)+encodeValue(r, v)+pad(r))
 	}
@@ -598,7 +659,10 @@ func genEnvCase(r *vgen.Rand) envCase {
 		c.unsetAttrs = true
 		c.attrs = ""
 	}
-	if r.Chance(2, 5) { // break the structure: the intent no longer applies, only model and invariants judge it
+	if longKeys != nil {
+		c.kind = "env-structured-long"
+	}
+	if r.Chance(2, 5) && (longKeys == nil || r.Chance(1, 4)) { // break the structure: the intent no longer applies, only model and invariants judge it
 		c.intent = false
 		c.kind = "env-mutated"
 		b := []byte(c.attrs)
@@ -649,8 +713,8 @@ func main() {
 	o := vgen.ParseFlags()
 	r := vgen.NewRand(o.Seed)
 	w := vgen.NewWriter(o.Out, "C05.Types C05.Spec C05.Model C19.Spec C19.Model C19.Corr", "case", 120)
-	w.Rule = "pairs and triples of resources (nil, Empty(), 0-12 attributes from a small colliding key pool incl. empty keys and invalid values, schema URLs from {\"\", a, b, semconv}), " +
-		"equality probes, OTEL_RESOURCE_ATTRIBUTES / OTEL_SERVICE_NAME strings rendered from key/value pairs with random whitespace (ASCII and Unicode) and random percent-escapes plus byte-level mutations (run in re-exec'd children), " +
+	w.Rule = "pairs and triples of resources (nil, Empty(), 0-12 attributes from a small colliding key pool, and one in six with 13-60 entries = 2-8 keys each repeated 2-7 times in random interleaving with a distinct value per occurrence incl. empty keys and invalid values, schema URLs from {\"\", a, b, semconv}), " +
+		"equality probes, OTEL_RESOURCE_ATTRIBUTES / OTEL_SERVICE_NAME strings rendered from key/value pairs (0-6, one in five 13-60 with heavily repeated keys) with random whitespace (ASCII and Unicode) and random percent-escapes plus byte-level mutations (run in re-exec'd children), " +
 		"scripted detector lists (absent, nil resource, partial and other errors, WithAttributes options, initial schema URL); " +
 		"non-trivial = operands share a key / schema URLs differ / the env string has a pair / a detector errs; distinct = distinct Coq case terms"
 
@@ -693,6 +757,9 @@ func main() {
 			}
 			desc["observed"] = o.desc()
 			w.Tally(fmt.Sprintf("build:kind=%d", d.kind))
+			if len(d.input) > 12 {
+				w.Tally("build:input>12-entries")
+			}
 			w.Add(vgen.App("CBuild", d.coq(), o.coq()), desc, "build", len(d.input) > len(o.attrs))
 		})
 	}
@@ -713,6 +780,9 @@ func main() {
 			desc["merged"] = om.desc()
 			desc["err"] = fmt.Sprint(err)
 			w.Tally(fmt.Sprintf("merge2:%s:err=%d", kind, mergeErr(err)))
+			if len(da.input) > 12 || len(db.input) > 12 {
+				w.Tally("merge2:operand>12-entries")
+			}
 			w.Add(vgen.App("CMerge2", da.coq(), db.coq(), oa.coq(), ob.coq(), om.coq(), vgen.N(mergeErr(err))), desc, "merge2",
 				shares(oa, ob) || oa.schema != ob.schema)
 		})
@@ -921,6 +991,12 @@ func main() {
 			desc["observed"] = ob.desc()
 			desc["err"] = fmt.Sprint(err)
 			w.Tally(fmt.Sprintf("detect:n=%d", n))
+			for _, d := range ds {
+				if !d.absent && len(d.res.input) > 12 {
+					w.Tally("detect:detector-output>12-entries")
+					break
+				}
+			}
 			w.Tally(fmt.Sprintf("detect:conflict=%v", conflict))
 			w.Tally(fmt.Sprintf("detect:via=%s", map[bool]string{true: "Detect", false: "New"}[useDetect]))
 			w.Add(vgen.App("CDetect", vgen.HxS(s0), vgen.List(dcoq), vgen.List(dobs), ob.coq(), vgen.Bool(conflict), vgen.Bool(partial), vgen.List(errs)),
